@@ -1977,6 +1977,23 @@ def refit(h, fit, re, case):
         # that the minimum has a flat direction and the reported sigma is no yardstick (degenerate-minimum policy: positions not compared)
         ctx.discard("refit-minimum-degenerate")
         return
+    if bad and not any(b[1] == "fixed" for b in bad) and abs(ca - cb) > tc + 1e-9 * abs(ca):
+        # explain-check: both objects evaluate the SAME function at both end points (original at the reloaded fit's end point and
+        # vice versa) but the two minimisations, which start with different step sizes, ended at different depths: several basins or
+        # an unbounded descent (thorough tier: unbinned mixture with one component collapsing onto a data point, s2 = 9e-9 / 7e-11,
+        # cost -12.5 / -21.5) - a property of the problem; the equivalence of the two objects as functions is what was just confirmed
+        try:
+            fit.set_all_parameter_values(pb)
+            c_ab = float(fit.cost_function_value)
+            re.set_all_parameter_values(pa)
+            c_ba = float(re.cost_function_value)
+            fit.set_all_parameter_values(pa)
+            re.set_all_parameter_values(pb)
+            if abs(c_ab - cb) <= tc + 1e-9 * abs(cb) and abs(c_ba - ca) <= tc + 1e-9 * abs(ca):
+                ctx.discard("refit-ends-at-different-depths-of-the-same-cost-function")
+                return
+        except Exception:
+            pass
     if bad and not any(b[1] == "fixed" for b in bad):
         # explain-check (same policy as the two-attractor cases of C06): started at the end point of the reloaded fit, the ORIGINAL
         # fit stays there with the same cost - the cost function has two minima and the two minimisations, which start with different
@@ -2018,7 +2035,13 @@ def obs_fit_after_op(fit, where):
         # cost not defined at this point (see obs_fit_at_points): the model values are compared instead
         g.append(("post.model", np.array(fit.model, dtype=float), ULP, 0.0, where))
         return g
-    g.append(("post.cost", float(fit.cost_function_value), LIN[0], LIN[1] + LIN[0] * sum(abs(x) for x in cc), where))
+    _c = float(fit.cost_function_value)
+    if not np.isfinite(_c):
+        # the cost is not defined in this configuration (e.g. a chi2 left without any uncertainty after the data was replaced): which
+        # non-finite value comes out (inf / -inf / nan) depends on the formula that happens to be selected
+        g.append(("post.cost-is-finite", False, 0.0, 0.0, where))
+        return g
+    g.append(("post.cost", _c, LIN[0], LIN[1] + LIN[0] * sum(abs(x) for x in cc), where))
     return g
 
 
